@@ -353,15 +353,31 @@ func (e *Engine) discharge1(o *Obligation, dir string, idx int, timeoutS int, se
 	if win == nil && !coverOnly && !fastOnly {
 		ctx, cancel := context.WithCancel(context.Background())
 		defer cancel()
-		results := make(chan solveResult, len(solvers))
-		var wg sync.WaitGroup
+		// the portfolio: every solver configuration, and the two z3 5.1.0 configurations again with other random
+		// seeds (some quantified invariant steps are decided by one seed in seconds and by another not at all;
+		// the answer must not depend on the seed the caller happens to export)
+		type member struct {
+			sp   solverSpec
+			seed int
+		}
+		var members []member
 		for _, sp := range solvers {
-			sp := sp
-			f := write(sp)
+			members = append(members, member{sp, seed})
+		}
+		members = append(members, member{solvers[3], seed + 1}, member{solvers[3], seed + 2}, member{solvers[0], seed + 1})
+		results := make(chan solveResult, len(members))
+		var wg sync.WaitGroup
+		for _, m := range members {
+			m := m
+			f := write(m.sp)
 			wg.Add(1)
 			go func() {
 				defer wg.Done()
-				results <- runSolver(ctx, sp, f, timeoutS, seed)
+				r := runSolver(ctx, m.sp, f, timeoutS, m.seed)
+				if m.seed != seed {
+					r.solver += fmt.Sprintf(" (seed+%d)", m.seed-seed)
+				}
+				results <- r
 			}()
 		}
 		go func() { wg.Wait(); close(results) }()
